@@ -5,7 +5,8 @@ import os
 
 ROOT = os.path.dirname(os.path.dirname(os.path.abspath(__file__)))
 
-BOUNDED_NOTE = ("Layer C is a BOUNDED stand-in (never counted as proved): the `programs` quantifier is sampled by the corpus in corpus/defs.py, inputs are "
+BOUNDED_NOTE = ("The native sweep (DESIGN 11.14) and layer C are BOUNDED stand-ins (never counted as proved): the sweep executes the step contract on every string of length <= 5 (thorough 6) over a small alphabet for the corpus "
+                "and for 150 (thorough 600) seeded random definitions; layer C: the `programs` quantifier is sampled by the corpus in corpus/defs.py, inputs are "
                 "all strings of at most N scalar values (N = 1..5 per definition, every character fully symbolic), calls handling more than m lexemes are "
                 "excluded by assumption, unwinding assertions on. Trusted: Kani 0.68 / CBMC 6.11, the generated reference step function (this project's "
                 "formalisation of the property and README), CBMC pointer checks off for safe-Rust generated code (Rust panics stay checked). ")
@@ -140,18 +141,21 @@ def main():
                   "enable": "./check <ID> snapshots /repo (rsync of the working tree) and splices Verus annotations / Kani contracts there",
                   "baseline_off_cmd": "cd /repo && cargo test --workspace --no-fail-fast --offline", "source_commits": [], "add_only": True},
         "engines": [
-            {"name": "verus-units", "path": "vlib/transplant.py + contracts/verus/*.vt", "serves_properties": ["C01", "C02", "C03", "C11", "C12", "C13", "C18"],
-             "kind_free_text": "real functions extracted mechanically from the snapshot, annotations transplanted by token alignment, verified by Verus/Z3"},
+            {"name": "verus-units", "path": "vlib/transplant.py + contracts/verus/*.vt", "serves_properties": ["C01", "C02", "C03", "C04", "C05", "C10", "C11", "C12", "C13", "C18"],
+             "kind_free_text": "22 units: real functions (and, rule B1, blocks of functions) extracted mechanically from the snapshot, annotations transplanted by token alignment (following renamed locals and moved code), verified by Verus/Z3"},
             {"name": "kani-contracts+step-harnesses", "path": "contracts/kani/lexgen_util.py + vlib/gen_corpus.py + corpus/defs.py",
              "serves_properties": ["C01", "C02", "C03", "C04", "C05", "C06", "C07", "C08", "C09", "C10", "C11", "C14", "C15"],
              "kind_free_text": "Kani function contracts / complete loop-free harnesses on lexgen_util (proved) and bounded step-contract harnesses on macro-expanded corpus lexers against a generated reference"},
+            {"name": "native-sweep", "path": "vlib/sweep.py + corpus/random_defs.py", "serves_properties": ["C01", "C02", "C03", "C04", "C05", "C06", "C07", "C08", "C09", "C10"],
+             "kind_free_text": "the same step contract executed natively on every short string over a small alphabet, for the corpus and for seeded random definitions (bounded stand-in by execution)"},
             {"name": "corpus-expansion", "path": "checks/c12.py + corpus/c12_defs.py", "serves_properties": ["C12"], "kind_free_text": "real macro expansion + rustc on a corpus under a watchdog"},
             {"name": "native-exhaustive", "path": "replayers/ + vlib/c13gen.py", "serves_properties": ["C11", "C13", "C18"],
              "kind_free_text": "crates generated in scratch that include the real code from the snapshot: witness search (C11, C18) and finite-domain enumeration (C13)"},
         ],
         "checks": checks,
-        "notes": "Exit codes: 0 held, 1 violation (VIOLATION line), 2 undecided (tool trouble / time-out; never a violation). Evidence keeps proved and bounded parts apart "
-                 "(coverage.proved_obligations vs coverage.bounded_part). known_findings.txt lists nine repaired defects as `fixed:` entries (they suppress nothing).",
+        "notes": "Exit codes: 0 = no violation in what was explored and at least one obligation decided (parts that could not be decided on the tree are printed as UNDECIDED lines and listed under `undecided` in the evidence); "
+                 "1 = violation (VIOLATION line); 2 = nothing could be decided. A failed Verus obligation is a violation unless the edit displaced the proof hints of the failing item (DESIGN 11.13). Evidence keeps proved and bounded parts apart "
+                 "(coverage.proved_obligations vs coverage.bounded_part / native_sweep). known_findings.txt lists ten repaired defects as `fixed:` entries (they suppress nothing) and one open finding (C12).",
         "not_applicable": NOT_APPLICABLE,
     }
     with open(os.path.join(ROOT, "MANIFEST.json"), "w") as f:
